@@ -100,6 +100,8 @@ struct RunResult {
     std::map<std::string, Bytes> out;   // direct-API scenario outputs
     std::map<std::string, uint64_t> probes;      // guarded trace probes fired (site -> count)
     std::map<std::string, uint64_t> known_hits;  // violations attributed to a listed known finding (site -> count)
+    uint64_t sched_switches = 0, sched_hash = 0;   // baton scheduler: hand-overs and hash of (task, tick) switch points
+    uint64_t access_checks = 0;                    // loads/stores examined by the ownership oracle
     bool cfg_changed = false;        // shared configuration bytes changed during parsing (C19)
 };
 
